@@ -617,6 +617,10 @@ func (ex *Exec) execLoop(fr *frame, l *Loop, in []edge) []edge {
 	for _, inv := range spec.Invariants {
 		ex.assume(h, ex.evalAssume(ex.ctxFor(fr, h, lc), inv))
 	}
+	for _, as := range spec.Assumed {
+		ex.assume(h, ex.evalAssume(ex.ctxFor(fr, h, lc), as))
+		ex.assumptions[fmt.Sprintf("assumed at the head of loop %d of %s, not proved: %s", l.Ordinal, ex.fnName(fr.fn), as.Text)] = true
+	}
 	h0 := h.fork() // the loop-head state of an arbitrary iteration (for two-state step clauses)
 	var variant0 *Term
 	if spec.Decreases != nil {
